@@ -292,18 +292,51 @@ fn abbreviate(s: &str) -> String {
 #[derive(Clone, Debug)]
 pub struct Case {
     pub histories: Vec<RangeRecipe>,
+    /// injected writer faults: before history `at` is printed, history `which`
+    /// is formatted into a writer that fails after `limit` bytes
+    pub writer_faults: Vec<(usize, usize, usize)>,
+}
+
+/// A `fmt::Write` sink that returns an error once `limit` bytes were accepted
+/// (a full buffer / closed pipe in the middle of Display).
+struct BoundedWriter {
+    left: usize,
+    written: usize,
+}
+impl std::fmt::Write for BoundedWriter {
+    fn write_str(&mut self, s: &str) -> std::fmt::Result {
+        if s.len() > self.left {
+            self.written += self.left;
+            self.left = 0;
+            return Err(std::fmt::Error);
+        }
+        self.left -= s.len();
+        self.written += s.len();
+        Ok(())
+    }
 }
 
 impl Case {
     pub fn to_json(&self) -> Value {
-        json!({"kind":"c17", "histories": self.histories.iter().map(|h| h.to_json()).collect::<Vec<_>>()})
+        json!({"kind":"c17", "histories": self.histories.iter().map(|h| h.to_json()).collect::<Vec<_>>(),
+            "writer_faults": self.writer_faults.iter().map(|(a,w,l)| vec![*a,*w,*l]).collect::<Vec<_>>()})
     }
     pub fn from_json(v: &Value) -> Result<Case, String> {
         let mut hs = vec![];
         for h in v["histories"].as_array().ok_or("histories")? {
             hs.push(RangeRecipe::from_json(h)?);
         }
-        Ok(Case { histories: hs })
+        let mut wf = vec![];
+        if let Some(a) = v["writer_faults"].as_array() {
+            for x in a {
+                if let Some(t) = x.as_array() {
+                    if t.len() == 3 {
+                        wf.push((t[0].as_u64().unwrap_or(0) as usize, t[1].as_u64().unwrap_or(0) as usize, t[2].as_u64().unwrap_or(0) as usize));
+                    }
+                }
+            }
+        }
+        Ok(Case { histories: hs, writer_faults: wf })
     }
 }
 
@@ -329,14 +362,33 @@ pub struct CaseResult {
     pub content_hash: u64,
     pub content_len: usize,
     pub order_fps: Vec<u64>,
+    pub writer_errors_fired: u64,
 }
 
 pub fn check_case(case: &Case) -> CaseResult {
     let built: Vec<HandRange> = case.histories.iter().map(|h| h.build()).collect();
-    let texts: Vec<Result<String, String>> = built
-        .iter()
-        .map(|r| crate::evalrun::guarded(|| r.to_string()))
-        .collect();
+    let mut writer_errors_fired = 0u64;
+    let mut texts: Vec<Result<String, String>> = vec![];
+    for (i, r) in built.iter().enumerate() {
+        for (at, which, limit) in &case.writer_faults {
+            if *at == i && *which < built.len() {
+                use std::fmt::Write;
+                let victim = &built[*which];
+                let mut w = BoundedWriter { left: *limit, written: 0 };
+                match crate::evalrun::guarded(|| write!(w, "{}", victim)) {
+                    Ok(Err(_)) => writer_errors_fired += 1,
+                    Ok(Ok(())) => {}
+                    Err(m) => {
+                        texts.push(Err(format!("while the writer was failing: {m}")));
+                    }
+                }
+            }
+        }
+        if texts.len() > i {
+            continue;
+        }
+        texts.push(crate::evalrun::guarded(|| r.to_string()));
+    }
     let fps: Vec<u64> = built.iter().map(order_fingerprint).collect();
     let distinct_orders: BTreeSet<u64> = fps.iter().cloned().collect();
     let c0 = built.first().map(contents_of).unwrap_or_default();
@@ -355,6 +407,7 @@ pub fn check_case(case: &Case) -> CaseResult {
         content_hash: ch.get(),
         content_len: c0.len(),
         order_fps: fps,
+        writer_errors_fired,
     };
     for (i, t) in texts.iter().enumerate() {
         if let Err(m) = t {
@@ -430,6 +483,48 @@ fn gen_w(rng: &mut Rng) -> u32 {
 
 fn gen_content(rng: &mut Rng, big: bool) -> Content {
     let mut c: Content = BTreeMap::new();
+    // structured extremes: everything, all of one kind, whole rows
+    match rng.below(40) {
+        0 => {
+            let w = gen_w(rng);
+            for cb in all_combos() {
+                c.insert(cb, w);
+            }
+        }
+        1 => {
+            let w = gen_w(rng);
+            for k in 0..13u8 {
+                for cb in rp_combos(Kind::Pocket, 255, k) {
+                    c.insert(cb, w);
+                }
+            }
+        }
+        2 => {
+            // every suited (or offsuit) rank pair, weights per row
+            let kind = if rng.chance(1, 2) { Kind::Suited } else { Kind::Offsuit };
+            for h in 0..12u8 {
+                let w = if rng.chance(1, 2) { 1.0f32.to_bits() } else { gen_w(rng) };
+                for k in (h + 1)..13 {
+                    for cb in rp_combos(kind, h, k) {
+                        c.insert(cb, w);
+                    }
+                }
+            }
+        }
+        3 => {
+            // alternating weights along a row: no two neighbours mergeable
+            let kind = *rng.pick(&[Kind::Pocket, Kind::Suited, Kind::Offsuit]);
+            let h = if kind == Kind::Pocket { 255 } else { rng.below(6) as u8 };
+            let lo = if kind == Kind::Pocket { 0 } else { h + 1 };
+            let (w1, w2) = (0.5f32.to_bits(), 0.25f32.to_bits());
+            for k in lo..13 {
+                for cb in rp_combos(kind, h, k) {
+                    c.insert(cb, if k % 2 == 0 { w1 } else { w2 });
+                }
+            }
+        }
+        _ => {}
+    }
     let pieces = if big { rng.range(4, 40) } else { rng.range(0, 8) };
     for _ in 0..pieces {
         match rng.below(10) {
@@ -664,7 +759,20 @@ fn gen_case(seed: u64, seeds_on: bool, thorough: bool) -> Case {
             hs.insert(at, h);
         }
     }
-    Case { histories: hs }
+    let mut wf = vec![];
+    if seeds_on && rng.chance(1, 3) {
+        for _ in 0..rng.range(1, 3) {
+            let at = rng.usize_below(hs.len());
+            let which = rng.usize_below(hs.len());
+            let limit = match rng.below(4) {
+                0 => 0,
+                1 => rng.range(1, 6) as usize,
+                _ => rng.range(1, 60) as usize,
+            };
+            wf.push((at, which, limit));
+        }
+    }
+    Case { histories: hs, writer_faults: wf }
 }
 
 fn minimise(case: &Case, okey: &str) -> (Case, usize) {
@@ -685,6 +793,12 @@ fn minimise(case: &Case, okey: &str) -> (Case, usize) {
         while i < best.histories.len() && best.histories.len() > 1 {
             let mut c = best.clone();
             c.histories.remove(i);
+            c.writer_faults = c
+                .writer_faults
+                .iter()
+                .filter(|(_, w, _)| *w != i)
+                .map(|(a, w, l)| (if *a > i { a - 1 } else { *a }, if *w > i { w - 1 } else { *w }, *l))
+                .collect();
             if fails(&c, &mut tried) {
                 best = c;
                 progress = true;
@@ -736,6 +850,18 @@ fn minimise(case: &Case, okey: &str) -> (Case, usize) {
                     }
                 }
             }
+        }
+        // drop writer faults
+        let mut f = 0;
+        while f < best.writer_faults.len() {
+            let mut c = best.clone();
+            c.writer_faults.remove(f);
+            if fails(&c, &mut tried) {
+                best = c;
+                progress = true;
+                continue;
+            }
+            f += 1;
         }
         // simplify recipes
         for i in 0..best.histories.len() {
@@ -820,6 +946,7 @@ pub fn run(tier: &str) -> i32 {
             if r.unequal_histories > 0 {
                 ev.fault("interleaved_display_of_other_range_same_combos", 1);
             }
+            ev.fault("display_writer_error_midway", r.writer_errors_fired);
             if r.orders >= 2 {
                 ev.probe("contents_reached_with_2plus_iteration_orders", 1);
             }
